@@ -59,8 +59,16 @@ class LayoutResolution(RewritePattern):
 
             strides: list[int] = []
 
+            origin = access_mem_map.eval([0] * access_mem_map.num_dims, ())[0]
             for i in range(access_mem_map.num_dims):
                 strides.append(access_mem_map.eval(generate_one_list(access_mem_map.num_dims, i), ())[0])
+
+                # one stride per schedule dimension can only describe this access if the address is
+                # linear in that dimension, which a tiled layout does not guarantee (a loop that
+                # walks over several tile levels whose strides are not multiples of each other)
+                last = [bounds[i] - 1 if j == i else 0 for j in range(access_mem_map.num_dims)]
+                if bounds[i] > 1 and access_mem_map.eval(last, ())[0] - origin != (bounds[i] - 1) * (strides[i] - origin):
+                    raise RuntimeError("Memory layout is not linear in the dimensions of the schedule")
 
             access_patterns.append(AffineTransform(np.array([strides]), np.array([0])).to_affine_map())
 
